@@ -198,6 +198,8 @@ func C05(p *Prog, r *Run) {
 		})
 		// the success block
 		gi, ni := CallsTo(fn, geneInsert), CallsTo(fn, nodeInsert)
+		// C05 speaks about what is added, not where in the list: the plain append is accepted here (C01 demands the ordered helper)
+		ni = append(ni, CallsTo(fn, p.Func(PkgG, "Genome.addNode"))...)
 		if len(gi) != 2 || len(ni) != 1 {
 			r.Bad("add-node.inserts", p.Pos(fn.Pos()), fmt.Sprintf("add-node has %d gene insertions and %d node insertions; a successful mutation adds exactly two genes and one node", len(gi), len(ni)))
 			return
@@ -296,6 +298,7 @@ func C05(p *Prog, r *Run) {
 		// write set
 		ws, _ := p.writeSet(fn, 0)
 		allowed := map[string]string{"Gene.IsEnabled": "", "Genome.Genes": "", "Genome.Nodes": "", "mapupdate": "node index", "elem:Genes": "", "elem:Nodes": ""}
+		_ = nodeInsert
 		bad := []string{}
 		for _, k := range sortedKeys(ws) {
 			if _, ok := allowed[k]; !ok {
